@@ -93,7 +93,7 @@ type Config struct {
 	Mode             Mode
 	Strategy         HintStrategy
 	Permissive       bool // when the honest hint fails (panic/error), fall back to a permissive generic hint
-	PermissiveFlavor int  // 0: the integer quotient / limbs; 1: for limb splits the pair (0, x) - another value a prover may supply when the honest hint refuses
+	PermissiveFlavor int  // 0: the integer quotient / limbs; 1: for limb splits the pair (0, x) - another value a prover may supply when the honest hint refuses; 2: gnark's bit decomposition of a value that does not fit: everything in digit 0
 	TrackBounds      bool
 	Leaves           map[*big.Int]string // witness leaf identity -> path
 	RecordEvts       map[string]bool     // hook kinds to record (nil = none, "*" = all)
@@ -723,6 +723,16 @@ func (c *comp) NewHint(f solver.Hint, nbOutputs int, inputs ...frontend.Variable
 			}
 			err = nil
 		}
+	}
+	if err == nil && cfg.Permissive && cfg.PermissiveFlavor == 2 && name == "nBits" && len(call.Inputs) == 1 && call.Inputs[0].BitLen() > nbOutputs {
+		// a value that does not fit the requested number of bits: the honest digits cannot recompose to it; a prover would put the
+		// whole value into digit 0 (ForeignMoves.tla, allInDigit0) - rejected exactly when the digits are constrained to be bits
+		cfg.count("permissive")
+		out = make([]frontend.Variable, nbOutputs)
+		for i := range out {
+			out[i] = new(big.Int)
+		}
+		out[0] = new(big.Int).Mod(call.Inputs[0], R)
 	}
 	if err != nil && cfg.Permissive {
 		g := GenericHint(name, call.Inputs, nbOutputs)
